@@ -1,1 +1,12 @@
-register("C14", "placeholder", "placeholder", "placeholder")
+register("C14",
+         "Coq theorems on a Gallina model of BipartiteGraph / HopcroftKarp / minimum_vertex_cover (invariants of BFS layering, DFS augmentation "
+         "and the Koenig exploration; fuel shown sufficient) + exact differential correspondence on all edge sets of small sides and random larger graphs "
+         "+ independent brute-force matching/cover oracle",
+         "Universal theorems (all sides, all edge lists accepted by the constructor, duplicates and isolated vertices included): the returned matching is a valid "
+         "matching; no augmenting path remains when the outer loop stops; the two returned lists contain only existing vertices, touch every edge and have together "
+         "exactly the size of the matching (the code's own assert never fails), hence the cover is minimum and the matching maximum (weak duality); the cover and "
+         "range clauses hold for ANY matching handed to the Koenig construction. All recursion/loop fuel of the model is proved sufficient. The model is tied to the "
+         "code by exact comparison (adjacency lists, matching incl. order, both cover lists, assert outcome, exploration visit orders) on every edge set for sides "
+         "<= 3x3 (quick) / <= 4x4 (thorough) and on random graphs up to 8x8.",
+         "Trusted: Coq kernel, vm_compute, harness; the hand-written model corresponds to the Python code only as far as the differential runs show (not a theorem). "
+         "No per-instance obligations are needed: the size equality is proved for all inputs.")
